@@ -314,3 +314,118 @@ Section DelimitedList.
     - reflexivity.
   Qed.
 End DelimitedList.
+
+(* ---- more lexical facts ---- *)
+(* what a statement end looks like to the next element: a newline or the end of the input *)
+Lemma end_spre E k : stmt_end E k -> (exists z, spre (E ++ k) = NL :: z) \/ spre (E ++ k) = [].
+Proof.
+  intros [(l & ls & -> & Hl & _) | (-> & HE)].
+  - left. rewrite <- app_assoc. eexists. apply Hl.
+  - right. rewrite app_nil_r. exact HE.
+Qed.
+Lemma end_nohead_spre E k cs : stmt_end E k -> memc NL cs = false -> nohead cs (spre (E ++ k)).
+Proof. intros H Hc. destruct (end_spre E k H) as [(z & ->) | ->]; [exact Hc|exact I]. Qed.
+
+Lemma ev_end_spre full m sl le E k :
+  nth_error G m = Some (mkNode (KMany true) [sl] true WS [pil_c] true []) ->
+  nth_error G sl = Some (mkNode KSuppress [le] true WS [pil_c] true []) ->
+  (exists cpl, nth_error G le = Some (mkNode KLineEnd [] true WS [pil_c] cpl [])) ->
+  stmt_end E k -> evals G full m true (At (spre (E ++ k))) (POk (after WS k) []).
+Proof.
+  intros Hm Hsl Hle Hk.
+  apply (evals_spre_inv G full pil_c WS pil_comment_ok m _ (E ++ k) _ Hm); [repeat split|reflexivity|].
+  apply (ev_end full m sl le true); assumption.
+Qed.
+
+Lemma ev_assign_fail full i cp x :
+  nth_error G i = Some (mkNode KSuppress [19] true WS [pil_c] false []) ->
+  nohead [61; 58]%N (spre x) -> evals G full i cp (At x) PFail.
+Proof.
+  intros Hi Hx.
+  assert (H61 : nohead [61%N] (spre x)) by (destruct (spre x) as [|e r]; [exact I|]; cbn in *; destruct (N.eqb e 61); [discriminate|reflexivity]).
+  assert (H58 : nohead [58%N] (spre x)).
+  { destruct (spre x) as [|e r]; [exact I|]. cbn in *. destruct (N.eqb e 61); [discriminate|].
+    destruct (N.eqb e 58); [discriminate|reflexivity]. }
+  eapply evals_node_fail; [exact Hi|rewrite andb_false_r; reflexivity|].
+  eapply impls_wrap; [reflexivity|reflexivity|].
+  eapply evals_node_fail; [lk|cbn; reflexivity|]. apply impls_first; [reflexivity|]. cbn [nkids].
+  eapply firsts_miss.
+  { eapply evals_eq; [apply (evals_lit G full pil_c WS pil_comment_ok 20 true true); lk|].
+    cbn [andb]. unfold lit_res. pose proof (starts_with_nohead 61%N [] _ H61) as Es.
+    unfold chr, pstr in *. rewrite Es. reflexivity. }
+  eapply firsts_miss; [|apply firsts_nil].
+  eapply evals_eq; [apply (evals_lit G full pil_c WS pil_comment_ok 21 true true); lk|].
+  cbn [andb]. unfold lit_res. pose proof (starts_with_nohead 58%N [] _ H58) as Es.
+  unfold chr, pstr in *. rewrite Es. reflexivity.
+Qed.
+
+Lemma ev_domain_fail full (cp : bool) (x : pstr) :
+  nohead idch (if cp then spre x else x) -> evals G full 13 cp (At x) PFail.
+Proof.
+  intros Hx.
+  eapply evals_node_fail; [lk|apply (pre_premise G full pil_c WS pil_comment_ok); repeat split|].
+  unfold pre_pos. cbn [ncallpre]. rewrite andb_true_r.
+  eapply impls_wrap; [reflexivity|reflexivity|].
+  eapply evals_node_fail; [lk|cbn; reflexivity|].
+  eapply impls_and_fail; [reflexivity|reflexivity|].
+  eapply (evals_word_plain_fail G full pil_c WS pil_comment_ok 15 false true); [lk|exact Hx].
+Qed.
+
+(* optional `(=|:) number` : Opt [And [Suppress->19 ; 26]] *)
+Record optnum := mkOptnum { on_b1 : pstr; on_sgn : chr; on_b2 : pstr; on_d0 : chr; on_ds : pstr }.
+Definition optnum_ok (o : optnum) : Prop :=
+  blanks WS (on_b1 o) /\ (on_sgn o = 61%N \/ on_sgn o = 58%N) /\ blanks WS (on_b2 o) /\
+  memc (on_d0 o) digit = true /\ all_in digit (on_ds o).
+Definition optnum_text (o : option optnum) : pstr :=
+  match o with
+  | Some o => on_b1 o ++ on_sgn o :: on_b2 o ++ on_d0 o :: on_ds o
+  | None => []
+  end.
+Definition optnum_toks (o : option optnum) : list tok :=
+  match o with Some o => [TStr (on_d0 o :: on_ds o)] | None => [] end.
+(* position after the optional part: Opt returns its pre-parsed position when absent *)
+Definition optnum_pos (o : option optnum) (r : pstr) : pstr := match o with Some _ => r | None => spre r end.
+
+Ltac norm_text := repeat (rewrite <- app_assoc || rewrite <- app_comm_cons).
+
+Lemma seqs_optnum_end full op an sa m sl le o E k acc :
+  nth_error G op = Some (mkNode KOpt [an] true WS [pil_c] true []) ->
+  nth_error G an = Some (mkNode KAnd [sa; 26] true WS [pil_c] true []) ->
+  nth_error G sa = Some (mkNode KSuppress [19] true WS [pil_c] false []) ->
+  nth_error G m = Some (mkNode (KMany true) [sl] true WS [pil_c] true []) ->
+  nth_error G sl = Some (mkNode KSuppress [le] true WS [pil_c] true []) ->
+  (exists cpl, nth_error G le = Some (mkNode KLineEnd [] true WS [pil_c] cpl [])) ->
+  match o with Some o => optnum_ok o | None => True end -> stmt_end E k ->
+  seqs G full [op; m] (At (optnum_text o ++ E ++ k)) acc (POk (after WS k) (acc ++ optnum_toks o)).
+Proof.
+  intros Hop Han Hsa Hm Hsl Hle Ho Hk. destruct o as [o|]; cbn [optnum_text optnum_toks app].
+  - destruct Ho as (Hb1 & Hsgn & Hb2 & H0 & Hds). norm_text.
+    assert (Hsg : stopc (on_sgn o) = true) by (destruct Hsgn as [-> | ->]; reflexivity).
+    eapply seqs_cons.
+    + eapply evals_eq.
+      * eapply evals_node_ok; [exact Hop|apply (pre_premise G full pil_c WS pil_comment_ok); repeat split|].
+        unfold pre_pos. cbn [andb ncallpre]. rewrite (spre_blanks_stop _ _ _ Hb1 Hsg).
+        eapply impls_opt_some; [reflexivity|reflexivity|].
+        eapply evals_node_ok; [exact Han|cbn; reflexivity|].
+        eapply impls_and; [reflexivity|reflexivity| |].
+        -- eapply (ev_assign full sa false _ (on_sgn o)); [exact Hsa|apply spre_stop; exact Hsg|exact Hsgn].
+        -- eapply seqs_cons; [|apply seqs_nil].
+           apply (ev_number full true _ (on_d0 o) (on_ds o) (E ++ k)); [|exact H0|exact Hds|].
+           ++ apply spre_blanks_stop; [exact Hb2|apply idch_stop, digit_idch; exact H0].
+           ++ apply pil_end_nohead; [exact Hk|vm_compute; reflexivity].
+      * reflexivity.
+    + eapply seqs_cons; [apply (ev_end full m sl le true); assumption|].
+      rewrite app_nil_r. apply seqs_nil.
+  - eapply seqs_cons.
+    + eapply evals_eq.
+      * eapply evals_node_ok; [exact Hop|apply (pre_premise G full pil_c WS pil_comment_ok); repeat split|].
+        unfold pre_pos. cbn [andb ncallpre].
+        eapply impls_opt_none; [reflexivity|reflexivity|].
+        eapply evals_node_fail; [exact Han|cbn; reflexivity|].
+        eapply impls_and_fail; [reflexivity|reflexivity|].
+        apply (ev_assign_fail full sa false _ Hsa). rewrite spre_idem.
+        apply end_nohead_spre; [exact Hk|reflexivity].
+      * reflexivity.
+    + eapply seqs_cons; [apply (ev_end_spre full m sl le); assumption|].
+      rewrite !app_nil_r. apply seqs_nil.
+Qed.
